@@ -8,6 +8,7 @@ theorems apply to the new box.
 import MysticVerif.Proofs.Solver
 import MysticVerif.Proofs.NelderMead
 import MysticVerif.Proofs.PowellS
+import MysticVerif.Props.C02Init
 
 namespace MysticVerif.C02
 open MysticVerif.Solver
